@@ -307,12 +307,15 @@ pub fn parse_file_internal(context: &ParseContext) -> Result<(), Error> {
 const MAX_INCLUDE_DEPTH: usize = 64;
 
 /// Grammar parser is recursive: every opened parenthesis and every unary
-/// operator costs a piece of the stack, so limit how deep a line may nest
+/// operator costs a piece of the stack, so limit how deep a line may nest.
+/// Chain of binary operators gives expression which is as deep as the chain is long,
+/// so operators of one operand are counted too
 const MAX_NESTING: usize = 256;
 
 fn nesting_depth(line: &str) -> usize {
     let mut depth = 0usize;
     let mut unary_run = 0usize;
+    let mut operators = 0usize;
     let mut max = 0usize;
     let mut previous = ' ';
     // closing quote of string or char which is in progress
@@ -336,11 +339,22 @@ fn nesting_depth(line: &str) -> usize {
                 depth = depth.saturating_sub(1);
                 unary_run = 0;
             }
-            '-' | '!' | '~' => unary_run += 1,
+            '-' | '!' | '~' => {
+                unary_run += 1;
+                operators += 1;
+            }
+            '+' | '*' | '/' | '%' | '&' | '|' | '^' | '<' | '>' | '=' => {
+                operators += 1;
+                unary_run = 0;
+            }
+            ',' => {
+                operators = 0;
+                unary_run = 0;
+            }
             ' ' | '\t' => {}
             _ => unary_run = 0,
         }
-        max = max.max(depth + unary_run);
+        max = max.max(depth + unary_run).max(operators);
         previous = c;
     }
     max
